@@ -117,7 +117,7 @@ structure Ctx where
   passed : List (String × Val) := []
   mode : Option String := none
   /-- import precedence of the current template rule (§5.6); `none` = no current template rule (inside xsl:for-each) -/
-  curPrec : Option Nat := none
+  curPrec : Option (Nat × Nat) := none   -- (precedence, low) of the current template rule
 deriving Inhabited
 
 /-! ### conversions (XPath §4.2–4.4) -/
@@ -510,7 +510,7 @@ inductive Instr
   | useSets (names : List String)
   /-- `xsl:number` (§7.7): `value="…"`, or `level` = single | multiple | any with an optional `count` pattern (no
 `from`); one format token with optional punctuation around it -/
-  | number (value : Option Expr) (level : String) (count : List Expr) (format : String)
+  | number (value : Option Expr) (level : String) (count : List Expr) (format : String) (from_ : List Expr := [])
   | applyImports
 deriving Inhabited
 
@@ -521,12 +521,16 @@ structure Template where
   prio : Option Int := none       -- explicit priority, in halves
   body : List Instr := []
   prec : Nat := 0                 -- import precedence of the stylesheet module the rule is in (§2.6.2)
+  /-- lowest import precedence in the import subtree of that module (post-order numbering makes the modules a
+  module imports, directly or indirectly, the contiguous range `low … prec-1`): what xsl:apply-imports may use -/
+  low : Nat := 0
 deriving Inhabited
 
 structure AttrSet where
   name : String
   uses : List String := []
   body : List Instr := []         -- xsl:attribute instructions
+  prec : Nat := 0                 -- import precedence of the defining module
 deriving Inhabited
 
 structure Stylesheet where
@@ -602,11 +606,12 @@ def matchesPat (d : Doc) (fuel : Nat) (p : Expr) (n : Nat) : Bool :=
 
 /-- §5.5: highest priority wins; among equals the last in the stylesheet (the permitted recovery) -/
 def chooseTemplate (ss : Stylesheet) (d : Doc) (fuel : Nat) (n : Nat) (mode : Option String)
-    (below : Option Nat := none) : Option Template :=
-  -- `below = some p`: only rules of import precedence lower than `p` (xsl:apply-imports, §5.6)
+    (below : Option (Nat × Nat) := none) : Option Template :=
+  -- `below = some (p, low)`: only rules imported into the current rule's module, i.e. of import precedence
+  -- `low ≤ · < p` (xsl:apply-imports, §5.6)
   let cands : List (Nat × Int × Nat × Template) :=
     (ss.templates.zipIdx).flatMap fun (t, idx) =>
-      if t.mode ≠ mode ∨ (match below with | some p => decide (t.prec ≥ p) | none => false) = true then [] else
+      if t.mode ≠ mode ∨ (match below with | some p => decide (t.prec ≥ p.1 ∨ t.prec < p.2) | none => false) = true then [] else
       (t.pats.filter fun p => matchesPat d fuel p n).map fun p => (t.prec, t.prio.getD (defaultPrio p), idx, t)
   -- highest import precedence, then highest priority, then last in the stylesheet
   let best := cands.foldl (fun (acc : Option (Nat × Int × Nat × Template)) x =>
@@ -626,19 +631,28 @@ def countsFor (d : Doc) (fuel : Nat) (count : List Expr) (cur n : Nat) : Bool :=
        | _ => true)
   else count.any fun p => matchesPat d fuel p n
 
-/-- the list of numbers `xsl:number` produces without `value` (no `from`) -/
-def numberList (d : Doc) (fuel : Nat) (level : String) (count : List Expr) (cur : Nat) : List Nat :=
+/-- the list of numbers `xsl:number` produces without `value` (§7.7; reading of `from` as in C17/Spec.lean: for
+single/multiple the ancestors searched stop below the nearest proper ancestor matching `from`; for any only nodes
+after the last `from` match strictly before the current node count) -/
+def numberList (d : Doc) (fuel : Nat) (level : String) (count from_ : List Expr) (cur : Nat) : List Nat :=
   let ok := countsFor d fuel count cur
+  let isFrom (n : Nat) : Bool := from_.any fun p => matchesPat d fuel p n
   let sibNo (n : Nat) : Nat := 1 + ((d.precedingSiblings n).filter ok).length
+  let searched := cur :: (d.ancestors cur).takeWhile fun a => !isFrom a
   if level = "any" then
     let anchor := if d.isAttr cur then (d.node cur).parent else cur
     let before := d.ids.filter fun n => n ≤ anchor ∧ !d.isAttr n
-    let cnt := ((if d.isAttr cur then before ++ [cur] else before).filter ok).length
+    let cand := if d.isAttr cur then before ++ [cur] else before
+    let strictlyBefore := cand.filter (· ≠ cur)
+    let lo := match (strictlyBefore.reverse.find? isFrom) with
+      | some m => (cand.dropWhile (· ≠ m)).drop 1
+      | none => cand
+    let cnt := (lo.filter ok).length
     if cnt = 0 then [] else [cnt]
   else if level = "multiple" then
-    (((cur :: d.ancestors cur).filter ok).reverse).map sibNo
+    ((searched.filter ok).reverse).map sibNo
   else
-    match (cur :: d.ancestors cur).find? ok with
+    match searched.find? ok with
     | some n => [sibNo n]
     | none => []
 
@@ -739,18 +753,31 @@ def formatToken (token : String) (n : Nat) : String :=
 
 def isAlnum (c : Char) : Bool := c.isAlphanum
 
-/-- prefix punctuation, token, suffix punctuation of a one-token format string; a list of numbers is formatted
-with that token for each and "." between them (§7.7.1: last token / default separator are reused); an empty list
-gives the empty string -/
+/-- split a format string into maximal alphanumeric / non-alphanumeric runs (§7.7.1) -/
+def formatRuns : Nat → List Char → List (Bool × String)
+  | 0, _ => []
+  | _, [] => []
+  | f+1, c :: cs =>
+    let a := isAlnum c
+    let run := (c :: cs).takeWhile fun x => isAlnum x == a
+    (a, String.ofList run) :: formatRuns f ((c :: cs).dropWhile fun x => isAlnum x == a)
+
+/-- §7.7.1: the n-th number uses the n-th format token (the last one when there are fewer tokens, "1" when there
+is none); a leading / trailing punctuation run is output as prefix / suffix; the separator runs between tokens join
+the numbers (the last separator, or "." when there is none, is reused); an empty list gives the empty string -/
 def formatNumbers (format : String) (ns : List Nat) : String :=
   if ns.isEmpty then "" else
-  let cs := format.toList
-  let pre := cs.takeWhile (fun c => !isAlnum c)
-  let rest := cs.dropWhile (fun c => !isAlnum c)
-  let tok := rest.takeWhile isAlnum
-  let suf := rest.dropWhile isAlnum
-  let t := if tok.isEmpty then "1" else String.ofList tok
-  String.ofList pre ++ ".".intercalate (ns.map (formatToken t)) ++ String.ofList suf
+  let runs := formatRuns (format.length + 1) format.toList
+  let pre := match runs with | (false, p) :: _ => p | _ => ""
+  let body := match runs with | (false, _) :: r => r | r => r
+  let suf := match body.getLast? with | some (false, p) => p | _ => ""
+  let body' := match body.getLast? with | some (false, _) => body.dropLast | _ => body
+  let toks := (body'.filter (·.1)).map (·.2)
+  let seps := (body'.filter (fun x => !x.1)).map (·.2)
+  let tokAt (i : Nat) : String := (toks[i]?).getD (toks.getLast?.getD "1")
+  let sepAt (i : Nat) : String := (seps[i]?).getD (seps.getLast?.getD ".")
+  let parts := (ns.zipIdx).map fun p => (if p.2 = 0 then "" else sepAt (p.2 - 1)) ++ formatToken (tokAt p.2) p.1
+  pre ++ String.join parts ++ suf
 
 def formatNumber (format : String) (n : Nat) : String := formatNumbers format [n]
 
@@ -840,7 +867,7 @@ def execOne (q : Quirks) (ss : Stylesheet) (d : Doc) (genv : List (String × Val
       let as ← attrs.mapM fun (an, parts) => (evalAvt d f parts c).map fun v => REv.attr an v
       let b ← execSeq q ss d genv f body' c0
       some ([.start name] ++ fromSets ++ as ++ b ++ [.stop name])
-    | .number value level count format =>
+    | .number value level count format from_ =>
       match value with
       | some e => do
         let v ← eval d f e c
@@ -848,14 +875,14 @@ def execOne (q : Quirks) (ss : Stylesheet) (d : Doc) (genv : List (String × Val
         | .int i => if i ≥ 1 then some [.text (formatNumber format i.toNat)] else none
         | .nan => none
       | none =>
-        let s := formatNumbers format (numberList d f level count c.node)
+        let s := formatNumbers format (numberList d f level count from_ c.node)
         some (if s.isEmpty then [] else [.text s])
     | .applyImports =>
       match c.curPrec with
       | none => none
       | some p =>
         match chooseTemplate ss d f c.node c.mode (some p) with
-        | some t => execSeq q ss d genv f t.body { c with vars := genv, passed := [], curPrec := some t.prec }
+        | some t => execSeq q ss d genv f t.body { c with vars := genv, passed := [], curPrec := some (t.prec, t.low) }
         | none =>
           match (d.node c.node).kind with
           | .root | .elem => applyNodes q ss d genv f (d.children c.node) 1 (d.children c.node).length c.mode [] []
@@ -931,14 +958,23 @@ def useAttrSets (q : Quirks) (ss : Stylesheet) (d : Doc) (genv : List (String ×
   | 0, _, _ => none
   | _+1, [], _ => some []
   | f+1, n :: ns, c => do
-    let a ← (match ss.attrSets.find? (·.name = n) with
-      | none => none
-      | some s => do
-        let inherited ← useAttrSets q ss d genv f s.uses c
-        let own ← execSeq q ss d genv f s.body { c with vars := genv, passed := [] }
-        some (inherited ++ own))
+    -- all definitions of the name are merged: lowest import precedence first, so that an attribute of a
+    -- definition with higher precedence (or later in the stylesheet) replaces the same attribute of a lower one
+    let defs := (ss.attrSets.filter (·.name = n)).mergeSort fun x y => x.prec ≤ y.prec
+    if defs.isEmpty then none else do
+    let a ← useAttrDefs q ss d genv f defs c
     let b ← useAttrSets q ss d genv f ns c
     some (a ++ b)
+
+def useAttrDefs (q : Quirks) (ss : Stylesheet) (d : Doc) (genv : List (String × Val)) :
+    Nat → List AttrSet → Ctx → Option (List REv)
+  | 0, _, _ => none
+  | _+1, [], _ => some []
+  | f+1, s :: rest, c => do
+    let inherited ← useAttrSets q ss d genv f s.uses c
+    let own ← execSeq q ss d genv f s.body { c with vars := genv, passed := [] }
+    let more ← useAttrDefs q ss d genv f rest c
+    some (inherited ++ own ++ more)
 
 def execChoose (q : Quirks) (ss : Stylesheet) (d : Doc) (genv : List (String × Val)) :
     Nat → List Instr → List Instr → Ctx → Option (List REv)
@@ -972,7 +1008,7 @@ def applyNodes (q : Quirks) (ss : Stylesheet) (d : Doc) (genv : List (String × 
       let leaked := if q.paramLeak then passed.filter (fun p => act.contains p.1) else []
       let a ← execSeq q ss d genv f t.body
           { keys := ss.keys, node := i, cur := i, pos := k, size := n, vars := leaked ++ genv, passed := passed, mode := mode,
-            curPrec := some t.prec }
+            curPrec := some (t.prec, t.low) }
       let act' := act ++ (declaredParams t.body).filter (fun x => (passed.lookup x).isSome)
       let b ← applyNodes q ss d genv f rest (k + 1) n mode passed act'
       some (a ++ b)
